@@ -1,8 +1,11 @@
 package tar
 
 import (
+	"context"
 	"sync"
 	"sync/atomic"
+
+	"github.com/hack-pad/hackpadfs"
 )
 
 // VerifC12PoolUnit drives the buffer pool itself (the unit that bounds how many entries are in flight):
@@ -37,4 +40,30 @@ func VerifC12PoolUnit() {
 	verifReach("all-returned")
 	verifAssert(int(atomic.LoadInt64(&p.count)) <= cap(p.buffers), "more buffers were provisioned than the pool's maximum")
 	verifAssert(len(p.buffers) == int(atomic.LoadInt64(&p.count)), "a buffer was lost or duplicated")
+}
+
+// VerifC12RootEntry: an archive that carries an entry for the root itself ("./", "." or "/", as written by
+// `tar -C dir -cf x.tar .`), before or after a regular file: afterwards the root has the permission bits of
+// that entry and the file is there.
+func VerifC12RootEntry() {
+	mode := hackpadfs.FileMode(verifUint32("mode"))&0777 | 0700
+	spelling := []string{"./", ".", "/"}[verifChoice("spelling", 3)]
+	first := verifChoice("root-entry-first", 2) == 1
+	if first {
+		verifTarAdd(spelling, int('5'), int64(mode), 0, 1)
+	}
+	verifTarAdd("x", int('0'), 0644, 1, 2)
+	if !first {
+		verifTarAdd(spelling, int('5'), int64(mode), 0, 1)
+	}
+	tfs, err := NewReaderFS(context.Background(), verifTarReader(-1, -1), ReaderFSOptions{})
+	verifAssert(err == nil, "NewReaderFS failed")
+	<-tfs.Done()
+	verifReach("done")
+	verifAssert(tfs.UnarchiveErr() == nil, "unpacking an archive with a root entry failed")
+	info, err := hackpadfs.Stat(tfs, ".")
+	verifAssert(err == nil && info.IsDir(), "Stat of the root failed")
+	verifAssert(info.Mode().Perm() == mode, "the root does not have the permission bits of the archive's root entry")
+	_, err = hackpadfs.Stat(tfs, "x")
+	verifAssert(err == nil, "an entry of the archive is missing")
 }
